@@ -277,7 +277,7 @@ func runC04(c *Ctx, phase string) {
 
 	// large inputs: the three entry points must agree on them as on small ones
 	{
-		for bi, b := range bigStrings(c.U, gen.NewRand(c.Seed, 0xC04B)) {
+		for bi, b := range bigStringsTier(c.U, gen.NewRand(c.Seed, 0xC04B), c.Thorough()) {
 			if !c.Mine(bi) {
 				continue
 			}
